@@ -1,5 +1,6 @@
 import Pyrtma.Proofs.ManagerCount
 import Pyrtma.Proofs.ManagerOrder
+import Pyrtma.Spec.Manager
 /-!
 # C05 — per-connection order, whole frames, sequence numbers
 
@@ -141,6 +142,36 @@ theorem same_relative_order (cfg : Cfg) (rs : List Round) (hi : IncRounds 0 rs) 
   · cases h1 with
     | head => exact absurd rfl hab
     | tail _ h2 => exact h2
+
+/-- **The oracle clause holds on every run of the model**: the sequence-number clause of the Spec the driver evaluates on
+the implementation (`Spec.isIota (Spec.countsOf log u)`: the counts on connection `u` are 1,2,3,…) is true of the event log of
+the model after any history, for every connection. -/
+theorem spec_count_clause_passes_on_model (cfg : Cfg) (ok : CfgOK cfg) (hfuel : cfg.fuel = 0) (rs : List Round) (u : Nat) :
+    Spec.isIota (Spec.countsOf (run cfg rs).out u) = true := by
+  obtain ⟨n, hn⟩ := seq_gap_free cfg ok hfuel rs u
+  have he : Spec.countsOf (run cfg rs).out u = countsOf (run cfg rs).out u := rfl
+  rw [he, hn.1]
+  unfold Spec.isIota iota
+  simp
+
+theorem adjacent_of_pairwise : ∀ (l : List Nat), l.Pairwise (· ≤ ·) → (l.zip (l.drop 1)).all (fun p => decide (p.1 ≤ p.2)) = true
+  | [], _ => rfl
+  | [_], _ => rfl
+  | a :: b :: rest, h => by
+    have h1 := List.pairwise_cons.mp h
+    have ih := adjacent_of_pairwise (b :: rest) h1.2
+    simp only [List.drop_succ_cons, List.drop_zero, List.zip_cons_cons, List.all_cons, Bool.and_eq_true, decide_eq_true_eq]
+    refine ⟨h1.1 b (by simp), ?_⟩
+    simpa using ih
+
+/-- …and so does the per-sender FIFO clause of the Spec (`checkC05`: at every receiver the frames of one sender appear in
+the order they were read), whatever function the Spec uses to attribute frames to senders. -/
+theorem spec_fifo_clause_passes_on_model (cfg : Cfg) (rs : List Round) (hi : IncRounds 0 rs) (senderOf : Nat → Nat) (u s : Nat) :
+    (((Spec.dataKs (run cfg rs).out u).filter (fun k => senderOf k == s)).zip
+      (((Spec.dataKs (run cfg rs).out u).filter (fun k => senderOf k == s)).drop 1)).all (fun p => decide (p.1 ≤ p.2)) = true := by
+  have he : Spec.dataKs (run cfg rs).out u = dataKs (run cfg rs).out u := rfl
+  rw [he]
+  exact adjacent_of_pairwise _ ((fifo_per_receiver cfg rs hi u).filter _)
 
 /-! ### Non-vacuity -/
 /-- two subscribers of type 5000, two frames published: both get frame 3 before frame 4 -/
